@@ -812,11 +812,15 @@ class Manager:
         # Run one step of a generator handler of ``event``. Events fired by
         # that step are effects of ``event``, exactly like the ones fired
         # before the handler's first yield (see _fire).
+        # (whichever thread drives tick() is the one handling events right now)
+        old_flushing = self._flushing_thread
+        self._flushing_thread = current_thread()
         self._currently_handling = event
         try:
             return step(arg)
         finally:
             self._currently_handling = None
+            self._flushing_thread = old_flushing
 
     def processTask(self, event, task, parent=None):  # noqa
         # TODO: C901: This has a high McCabe complexity score of 16.
